@@ -6,4 +6,5 @@ export GOFLAGS=-mod=mod GOPROXY=off GOSUMDB=off GOTOOLCHAIN=local CGO_ENABLED=0
 unset GOWORK
 mkdir -p ../bin ../evidence
 go build -o ../bin/fxcheck .
+go build -o ../bin/astmut ./cmd/astmut
 echo "built $(cd .. && pwd)/bin/fxcheck"
